@@ -18,6 +18,7 @@ import concurrent.futures
 import json
 import os
 import re
+import urllib.parse
 import shutil
 import tempfile
 
@@ -76,12 +77,17 @@ SINKS = [
     (r'/a/(?P<id>\d+)', False),
     (r'/s(?P<rest>/.*)?', False),
     (r'/(?P<first>[ab])/(?P<second>[^/]+)', True),
+    # character classes: a str pattern follows Python's str semantics (\\w and \\d match non-ASCII letters and digits)
+    (r'/w/(?P<word>\w+)$', False),
+    (r'/n(?P<num>\d+)', False),
 ]
 
 STATICS = ['/', '/a', '/s', '/a/1', '/s/']
 
 PATHS = ['/', '/a', '/a/', '/a/1', '/a/12', '/a/1/f.txt', '/a/x', '/a/x/f.txt', '/s', '/s/f.txt', '/s/d/f.txt',
-         '/sx', '/b/p-q', '/b/f.txt', '/f.txt', '/zz']
+         '/sx', '/b/p-q', '/b/f.txt', '/f.txt', '/zz',
+         # percent-encoded UTF-8: café, Cyrillic, an Arabic-Indic digit (the application sees the decoded path)
+         '/w/caf%C3%A9', '/w/abc', '/w/%D0%BE%D1%82', '/n%D9%A3', '/n7']
 
 FALLBACK = 'fallback.txt'
 
@@ -141,6 +147,7 @@ class Model(object):
                 self.statics.append((i, len(self.statics), _norm_prefix(STATICS[op['p']]), op['fb']))
 
     def candidates(self, path):
+        path = urllib.parse.unquote(path)  # dispatch works on the decoded path
         hit = self.router.find(path)
         sinks = []
         for i, rx in reversed(self.sinks):  # most recently added first
@@ -593,6 +600,11 @@ class Subsets(_Base):
                     yield {'sbs': True, 'ops': [{'k': 'sink', 'p': 0}, dict(route, falsy=True)], 'reqs': reqs}
                 if bits % 7 == 3:
                     yield {'sbs': True, 'ops': [{'k': 'sink', 'p': 0}, route], 'reqs': reqs, 'reraise': True}
+        # sinks whose patterns use character classes, asked for ASCII and non-ASCII (percent-encoded UTF-8) paths
+        wide = [[PATHS.index(p), m] for p in ('/w/caf%C3%A9', '/w/abc', '/w/%D0%BE%D1%82', '/n%D9%A3', '/n7', '/zz') for m in ('GET', 'POST')]
+        for sbs in (True, False):
+            yield {'sbs': sbs, 'ops': [{'k': 'sink', 'p': 0}, {'k': 'sink', 'p': 5}, {'k': 'sink', 'p': 6}], 'reqs': wide}
+            yield {'sbs': sbs, 'ops': [{'k': 'sink', 'p': 6}, {'k': 'static', 'p': 0, 'fb': False}, {'k': 'sink', 'p': 5}], 'reqs': wide}
 
 
 SUITES = [Apps(), Subsets()]
